@@ -39,6 +39,10 @@ func coreC08(tier string) []RunSpec {
 				out = append(out, RunSpec{Profile: "core:mint-storage-error", Params: map[string]int{"mde": k, "mdeop": opk, "legacy": legacy}})
 			}
 		}
+		// a melt that pays another wallet's mint quote at the same mint (settled internally, no fee reserve)
+		for k := 0; k < 3; k++ {
+			out = append(out, RunSpec{Profile: "core:internal-melt", Params: map[string]int{"imelt": 1, "legacy": legacy, "k": k}})
+		}
 		// SIG_ALL P2PK token from an untrusted mint received with swap-to-trusted: the wallet first
 		// swaps at the untrusted mint and melts the fresh proofs there
 		for k := 0; k < 2; k++ {
@@ -312,6 +316,8 @@ func runC08(rc *RunCtx) {
 				}
 				ww.Step(path)
 			}
+		} else if rc.P("imelt", 0) == 1 || T.Chance("imelt", 1, 10) {
+			ww.StepInternalMelt()
 		} else if T.Chance("meltretry", 1, 8) {
 			// a melt whose request or response gets lost (the wallet sees a connection error and keeps
 			// the proofs as pending), then Melt is called again for the same quote
